@@ -49,6 +49,16 @@ func (s *sink) Process(ctx context.Context, e *eventlogger.Event) (*eventlogger.
 func (s *sink) Reopen() error              { return nil }
 func (s *sink) Type() eventlogger.NodeType { return eventlogger.NodeTypeSink }
 
+// emptyWrap is a filter that implements NodeUnwrapper and wraps nothing.
+type emptyWrap struct{}
+
+func (w *emptyWrap) Process(ctx context.Context, e *eventlogger.Event) (*eventlogger.Event, error) {
+	return e, nil
+}
+func (w *emptyWrap) Reopen() error              { return nil }
+func (w *emptyWrap) Type() eventlogger.NodeType { return eventlogger.NodeTypeFilter }
+func (w *emptyWrap) Unwrap() eventlogger.Node   { return nil }
+
 // reent is a filter node that re-enters Broker.Send from the chosen callback.
 type reent struct {
 	b      *eventlogger.Broker
@@ -226,6 +236,18 @@ func Run(sc Scenario) Result {
 			} else {
 				err = b.RemoveNode(ctx, "rn")
 			}
+		case "emptywrap":
+			// a decorator that currently wraps nothing (NodeUnwrapper whose Unwrap returns nil, no Close of its own): closing it
+			// is closing nothing, and the removing calls return
+			b.RegisterNode("ew", &emptyWrap{})
+			b.RegisterNode("ew2", &emptyWrap{})
+			mustNil(b.RegisterPipeline(eventlogger.Pipeline{PipelineID: "ewp", EventType: "ew", NodeIDs: []eventlogger.NodeID{"ew2", "fmt2", "out2"}}))
+			err = b.RemoveNode(ctx, "ew")
+			if _, e2 := b.RemovePipelineAndNodes(ctx, "ew", "ewp"); e2 != nil && err == nil {
+				err = e2
+			}
+			b.RegisterNode("fmt2", &eventlogger.JSONFormatter{})
+			b.RegisterNode("out2", &sink{})
 		case "renode":
 			// a node that still holds pending work and calls back into the Broker when closed is replaced under its id
 			// once no pipeline lists it: whatever RegisterNode does with the old one, it returns, and so do later calls
@@ -485,6 +507,7 @@ func Scenarios() []Scenario {
 		add(Scenario{Op: "send", Cb: "gated", Pending: k})
 		add(Scenario{Op: "race", Cb: "gated", Pending: k})
 	}
+	add(Scenario{Op: "emptywrap", Cb: "none"})
 	for k := 0; k <= 2; k++ {
 		add(Scenario{Op: "renode", Cb: "gated", Pending: k})
 		add(Scenario{Op: "renode", Cb: "close", Pending: k})
